@@ -14,6 +14,7 @@ import (
 )
 
 type OblInst struct {
+	HypList []string
 	Hyp   string
 	Goal  string
 	Trace []string
@@ -96,6 +97,8 @@ type Unit struct {
 	refines *Contract
 	refSig *types.Signature
 	refNames map[string]*Val
+	callAssertSeen map[int]bool
+	sentinels map[string]bool
 }
 
 const maxPaths = 6000
@@ -123,7 +126,7 @@ func (u *Unit) oblige(st *State, name, kind, text, goal string, quant bool) {
 		}
 		return
 	}
-	o.Insts = append(o.Insts, &OblInst{Hyp: st.hyp(), Goal: goal, Trace: append([]string(nil), st.trace...)})
+	o.Insts = append(o.Insts, &OblInst{Hyp: st.hyp(), HypList: append(append([]string{}, st.pc...), st.guard...), Goal: goal, Trace: append([]string(nil), st.trace...)})
 }
 
 func (u *Unit) cover(st *State, name, text string) {
